@@ -61,7 +61,7 @@ fn c15_arena<A: Subject>(backend: Backend, allocated: u32, poison: u8, path: Opt
 
 fn c15_flavour<A: Subject>(run: &Run, backend: Backend, thorough: bool) {
   let flav = A::FLAVOUR;
-  let fills: Vec<u32> = if thorough { vec![32, 33, 34, 40, 47, 48, 63, 100, 101, 255, 256] } else { vec![32, 33, 40, 47, 100, 256] };
+  let fills: Vec<u32> = if thorough { (32..=256).collect() } else { vec![32, 33, 40, 47, 100, 256] };
   let mut offsets: Vec<usize> = (0..=256 + 16).collect();
   offsets.extend((0..=16).map(|k| usize::MAX - k));
   offsets.extend([1usize << 32, (1usize << 32) - 1, 1usize << 63, (1usize << 63) - 1, (1usize << 63) + 5, isize::MAX as usize - 3]);
@@ -439,7 +439,7 @@ pub fn check_c16(tier: Tier) -> i32 {
   use Op::*;
   use Sz::*;
   let alphabet = vec![B(N(7)), B(N(16)), B(R), T(U64), T(A16), AB(U32, N(5)), TO(U16), D(0), D(1), F(0), Disc, IncDisc(3), SetMin(0), Rewind(Pos::Start(0)), Rewind(Pos::End(190)), Rewind(Pos::Cur(-300)), Clear];
-  let spec = Spec { alphabet: alphabet.clone(), depth: if thorough { 4 } else { 3 }, oracles: O_LAYOUT, sync: true, unsync: true, diff: false, diff_prop: "C16" };
+  let spec = Spec { alphabet: alphabet.clone(), depth: if thorough { 5 } else { 3 }, oracles: O_LAYOUT, sync: true, unsync: true, diff: false, diff_prop: "C16" };
   let mut cells = vec![];
   for fl in Fl::ALL {
     for (b, u) in [(Backend::Vec, false), (Backend::Vec, true), (Backend::Anon, true), (Backend::File, true), (Backend::File, false)] {
